@@ -154,3 +154,23 @@ Proof.
     assert (E2 : Z.to_nat (Z.of_nat (S n) * row) = (Z.to_nat row + Z.to_nat (Z.of_nat n * row))%nat) by nia.
     rewrite E1, E2, <- skipn_skipn_add, firstn_add_split. reflexivity.
 Qed.
+
+(* ---- the guards "0 <= size (dims0 d p)" / "0 <= size (tl d)" hold for every shape with non-negative dimensions -- *)
+Lemma size_nonneg d : Forall (fun x => 0 <= x) d -> 0 <= size d.
+Proof.
+  induction 1 as [|x r Hx Hr IH]; [rewrite size_nil; lia | rewrite size_cons; nia].
+Qed.
+
+Lemma Forall_skipn {A} (P : A -> Prop) n : forall l, Forall P l -> Forall P (skipn n l).
+Proof.
+  induction n as [|n IH]; intros l H; [exact H|].
+  destruct H as [|x l Hx Hl]; cbn [skipn]; [constructor | apply IH; exact Hl].
+Qed.
+
+Lemma c_guards_hold d p :
+  Forall (fun x => 0 <= x) d -> 0 <= size (dims0 d p) /\ 0 <= size (tl d).
+Proof.
+  intros H. split.
+  - apply size_nonneg. unfold dims0. apply Forall_skipn. exact H.
+  - apply size_nonneg. destruct H; [constructor | assumption].
+Qed.
